@@ -210,8 +210,14 @@ func c18Airgapped(r *kit.Run, rec *world.Recording, tier string, classes map[str
 				}
 				// the ceremony goes on: whatever the mutated operation left behind, the genuine
 				// operations that follow must not crash the machine either
+				// (a refused operation is fed again in its genuine form; after an accepted one the
+				// operator goes on with the next operation, on whatever the mutant left stored)
 				if perr == nil {
-					for j := jb.k; j < len(opsOf[jb.i]); j++ {
+					from := jb.k
+					if rerr == nil {
+						from = jb.k + 1
+					}
+					for j := from; j < len(opsOf[jb.i]); j++ {
 						var p2 interface{}
 						site2 := ""
 						func() {
